@@ -170,7 +170,7 @@ def propagate_attribute_aliases(tree) -> int:
         aliases = {}
         for n in _walk_function(fn):
             if isinstance(n, ast.Assign) and len(n.targets) == 1 and isinstance(n.targets[0], ast.Name) \
-                    and isinstance(n.value, (ast.Attribute, ast.UnaryOp, ast.BoolOp, ast.Compare)):
+                    and isinstance(n.value, (ast.Attribute, ast.UnaryOp, ast.BoolOp, ast.Compare, ast.Name)):
                 t = n.targets[0].id
                 if t in params or stores.get(t) != 1 or t in nested_stores:
                     continue
